@@ -52,7 +52,7 @@ impl Op for Sort {
             nd::skip(n * (n - 1));
         }
     }
-    fn check(&self, old: &Win, new: &Win) {
+    fn check<const B: usize>(&self, old: &Win<B>, new: &Win<B>) {
         self.check_impl(old, new);
     }
 }
@@ -75,14 +75,14 @@ impl Sort {
         }
     }
 
-    fn check_impl(&self, old: &Win, new: &Win) {
+    fn check_impl<const B: usize>(&self, old: &Win<B>, new: &Win<B>) {
         let (w, h) = (old.cols, old.rows);
         let l = self.line;
         // number of lines being permuted, and accessors along / across them
         let n = if self.by_row() { w } else { h };
         let m = if self.by_row() { h } else { w };
         // cell (line i, position j along the line) : for a row sort a "line" is a column
-        let at = |g: &Win, i: usize, j: usize| if self.by_row() { g.at(i, j) } else { g.at(j, i) };
+        let at = |g: &Win<B>, i: usize, j: usize| if self.by_row() { g.at(i, j) } else { g.at(j, i) };
         // (1) the key line is ordered
         if n > 1 {
             let i = nd::below(n - 1);
@@ -112,9 +112,9 @@ impl Sort {
 
 /// Fill the receiver-to-be's cells: identity of the line in the upper bits, symbolic key in the
 /// low bits of the key line. Returns the cell buffer.
-fn make_cells(s: &Sort, pc: usize, pr: usize, gm: &Geom) -> [u8; 16] {
-    let mut cells = [0u8; 16];
-    let keys = nd::bytes::<4>();
+fn make_cells<const B: usize, const K: usize>(s: &Sort, pc: usize, pr: usize, gm: &Geom) -> [u8; B] {
+    let mut cells = [0u8; B];
+    let keys = nd::bytes::<K>();
     let (w, h) = gm.size;
     let mut r = 0;
     while r < h {
@@ -145,7 +145,16 @@ fn make_cells(s: &Sort, pc: usize, pr: usize, gm: &Geom) -> [u8; 16] {
 pub fn sort(entry: u8, kind: u8, pc: usize, pr: usize, sc: usize, sr: usize, ec: usize, er: usize, line: usize) {
     let gm = geometry(kind, pc, pr, Pick::Fixed((sc, sr), (ec, er)));
     let s = Sort { entry, line };
-    let cells = make_cells(&s, pc, pr, &gm);
+    let cells = make_cells::<16, 4>(&s, pc, pr, &gm);
+    run(kind, pc, pr, gm, cells, &s, false);
+}
+
+/// As `sort`, for shapes with up to 18 lines (buffer of 72 cells): reaches code paths that only
+/// wide arrays take.
+pub fn sort_wide(entry: u8, kind: u8, pc: usize, pr: usize, sc: usize, sr: usize, ec: usize, er: usize, line: usize) {
+    let gm = geometry(kind, pc, pr, Pick::Fixed((sc, sr), (ec, er)));
+    let s = Sort { entry, line };
+    let cells = make_cells::<72, 18>(&s, pc, pr, &gm);
     run(kind, pc, pr, gm, cells, &s, false);
 }
 
